@@ -160,13 +160,13 @@ def digExact (dz : Int) (e z0 : Int) : Int := min (e - dz) z0
 def digTrunc (e z0 : Int) : Int := if z0 < e then z0 else if e ≥ 1 then e - 1 else e
 
 /-- `abs(int(idx0) - int(idx_ds))` -/
-def absDiff (a b : Nat) : Nat := if a ≥ b then a - b else b - a
+def absDiffIdx (a b : Nat) : Nat := if a ≥ b then a - b else b - a
 
 /-- the `if dd > 1 and dd != ncol:` block; `none` is the `continue` of the code (no valid side
 neighbour), which also skips the pit block -/
 def digDiag (digf : Int → Int → Int) (ncol : Nat) (nodata : Int) (elv : Array Int) (idx0 idxds : Nat) :
     Option (Array Int) :=
-  if absDiff idx0 idxds > 1 ∧ absDiff idx0 idxds ≠ ncol then
+  if absDiffIdx idx0 idxds > 1 ∧ absDiffIdx idx0 idxds ≠ ncol then
     match argminFirst elv ((localD4 ncol idx0 idxds).filter fun k => elv[k]! != nodata) with
     | none => none
     | some k => some (elv.setIfInBounds k (digf elv[k]! elv[idx0]!))
